@@ -48,8 +48,14 @@ def run_smoothing():
     return cx.run_function('solver.smoothing', mk, pc0=[lr >= 0, lr <= 7], summaries=summs, opts={}), c, lr, nu
 
 
+def replay(d):
+    from . import c03_concrete
+    return ob.guarded(c03_concrete.check_dispatch)
+
+
 def task_dispatch():
     col = ob.Collector(PROP, 'solver.smoothing')
+    col.default_replay = replay
     col.function('solver.smoothing')
     res, c, lr, nu = run_smoothing()
     pre = [lr >= 0, lr <= 7, c >= 0, c <= 7]
@@ -106,6 +112,9 @@ def task_dispatch():
     col.lia('composition/no_line_relaxation_along_a_two_cell_direction', pre + contract,
             z3.And(*[z3.Implies(m[i] == 2, z3.Not(dc[i])) for i in range(3)]))
     col.lia('composition/requested_code_without_two_cell_directions_is_kept', pre + contract + [x != 2 for x in m], c == lr)
+    r = replay(None)
+    col.concrete('smoothing_equals_stated_kernel_sequence_on_real_arrays', r['reproduced'] is False, r,
+                 bounded='3 shapes (incl. two-cell directions) x 8 direction codes x nu in {1,2}', cases=r.get('cases', 0))
     return col.pack()
 
 
